@@ -124,6 +124,8 @@ pub enum Enc {
 #[derive(Clone, Debug, PartialEq)]
 pub enum Trg {
     Size,
+    /// limit written as an integer scalar
+    SizeInt(u64),
     Time,
     /// min_size absent / value
     OnStartup(Option<u64>),
@@ -222,6 +224,7 @@ pub fn doc(lc: &Lc, root: &str, tagp: &str) -> Node {
                 }
                 let t = match trg {
                     Trg::Size => vec![("kind".to_string(), s("size")), ("limit".to_string(), s("40 b"))],
+                    Trg::SizeInt(n) => vec![("kind".to_string(), s("size")), ("limit".to_string(), Node::Int(*n as i128))],
                     Trg::Time => vec![("kind".to_string(), s("time")), ("interval".to_string(), s("1 hour"))],
                     Trg::OnStartup(None) => vec![("kind".to_string(), s("onstartup"))],
                     Trg::OnStartup(Some(n)) => vec![("kind".to_string(), s("onstartup")), ("min_size".to_string(), Node::Int(*n as i128))],
@@ -302,6 +305,7 @@ pub fn build_programmatic(lc: &Lc, root: &str, tagp: &str) -> Result<Config, Str
             Kind::Rolling { append, enc, trg, rol, .. } => {
                 let trigger: Box<dyn Trigger> = match trg {
                     Trg::Size => Box::new(SizeTrigger::new(40)),
+                    Trg::SizeInt(n) => Box::new(SizeTrigger::new(*n)),
                     Trg::Time => Box::new(TimeTrigger::new(serde_yaml::from_str("interval: 1 hour").map_err(|e: serde_yaml::Error| e.to_string())?)),
                     Trg::OnStartup(n) => Box::new(OnStartUpTrigger::new(n.unwrap_or(1))),
                 };
@@ -532,7 +536,7 @@ fn app_variants(tier: Tier) -> Vec<(Kind, Vec<LevelFilter>)> {
     }
     for append in [None, Some(true), Some(false)] {
         for policy_kind in [false, true] {
-            for trg in [Trg::Size, Trg::Time, Trg::OnStartup(None), Trg::OnStartup(Some(0)), Trg::OnStartup(Some(500))] {
+            for trg in [Trg::Size, Trg::SizeInt(0), Trg::SizeInt(40), Trg::Time, Trg::OnStartup(None), Trg::OnStartup(Some(0)), Trg::OnStartup(Some(500))] {
                 for rol in [Rol::Delete, Rol::Fixed(None), Rol::Fixed(Some(1))] {
                     let encs = if tier == Tier::Thorough { enc_variants() } else { vec![Enc::Pattern(false, true), Enc::Absent] };
                     for enc in encs {
